@@ -5,6 +5,7 @@ import (
 	"reflect"
 	"sort"
 	"strings"
+	"sync"
 	"testing"
 
 	"github.com/blinklabs-io/gouroboros/cbor"
@@ -229,6 +230,10 @@ func implSequences(b *binding, impl implAuto, depth int) [][]string {
 
 // ---- (b) engine validation ----------------------------------------------------------------
 
+// engineBroken: automata whose engine hung once (each hang costs the full step
+// bound; the first one is reported, further engine runs are skipped).
+var engineBroken sync.Map
+
 type engineCounters struct {
 	validated, cut, terminal int
 }
@@ -244,7 +249,13 @@ func roleName(r protocol.ProtocolRole) string {
 // engine's verdicts vs the specification (same finding keys as the static walk).
 func runEngineTrace(rec *evi.Recorder, b *binding, impl implAuto, role protocol.ProtocolRole, useReal bool,
 	plan rawpeer.Plan, seq []string, pick func(int) int, ec *engineCounters, fail failFn) {
+	if _, broken := engineBroken.Load(b.id); broken {
+		return // an earlier trace of this automaton hung for the whole bound; already reported
+	}
 	res := driveTrace(b, impl, role, useReal, plan, seq, pick)
+	if res.stuck {
+		engineBroken.Store(b.id, true)
+	}
 	rec.Eval()
 	cs := c16Case{Binding: b.id, Sequence: seq, Role: roleName(role), Observed: res.obs, Note: res.cut}
 	if useReal {
